@@ -1,4 +1,4 @@
-package e2e08
+package c08
 
 // End-to-end containment part of C08: while garbage clients hammer a listener of a running MOSN and
 // a scripted upstream answers garbage, probe clients on other connections (same listener, a second
@@ -62,7 +62,7 @@ func validFrame(t *rapid.T, proto string) []byte {
 }
 
 // lengthFieldOffsets of a request frame: (offset, width) of every length field.
-func lengthFields(proto string) [][2]int {
+func e2eLengthFields(proto string) [][2]int {
 	switch proto {
 	case "bolt": // 1 proto,1 type,2 cmd,1 ver2,4 id,1 codec,4 timeout | 2 classLen,2 headerLen,4 contentLen
 		return [][2]int{{14, 2}, {16, 2}, {18, 4}}
@@ -84,7 +84,7 @@ func genXGarbage(t *rapid.T, proto string) *garbage {
 		g.Bytes = append(append([]byte(nil), f[:n]...), codec.Fill(rapid.SampledFrom([]int{3, 40, 500}).Draw(t, "n"), rapid.Uint64Range(0, 1<<20).Draw(t, "seed"), false)...)
 	case 2, 3: // one length field of a valid frame set to a hostile value
 		f := validFrame(t, proto)
-		lf := lengthFields(proto)
+		lf := e2eLengthFields(proto)
 		x := lf[rapid.IntRange(0, len(lf)-1).Draw(t, "field")]
 		var truth uint32
 		if x[1] == 2 {
@@ -110,7 +110,7 @@ func genXGarbage(t *rapid.T, proto string) *garbage {
 		g.Kind, g.Bytes, g.Plaus = "bit-flips", f, true
 	case 6: // announced 2 GiB body, 30 bytes present
 		f := validFrame(t, proto)
-		lf := lengthFields(proto)
+		lf := e2eLengthFields(proto)
 		x := lf[len(lf)-1]
 		binary.BigEndian.PutUint32(f[x[0]:], 0x7fffffff)
 		if len(f) > x[0]+4+30 {
@@ -310,7 +310,7 @@ func genGarbage(proto string) *rapid.Generator[hold[garbage]] {
 		g.WaitMs = rapid.SampledFrom([]int{0, 0, 5, 30, 100}).Draw(t, "waitMs")
 		g.Pieces = rapid.SampledFrom([]int{1, 1, 2, 5}).Draw(t, "pieces")
 		g.HalfCls = rapid.IntRange(0, 4).Draw(t, "halfClose") == 0
-		return hold[garbage]{g, fmt.Sprintf("%s %d bytes %x wait=%d pieces=%d half=%v", g.Kind, len(g.Bytes), g.Bytes[:min(len(g.Bytes), 48)], g.WaitMs, g.Pieces, g.HalfCls)}
+		return hold[garbage]{g, fmt.Sprintf("%s %d bytes %x wait=%d pieces=%d half=%v", g.Kind, len(g.Bytes), g.Bytes[:e2eMin(len(g.Bytes), 48)], g.WaitMs, g.Pieces, g.HalfCls)}
 	})
 }
 
@@ -374,7 +374,7 @@ func genUpstreamGarbage(proto string) *rapid.Generator[hold[garbage]] {
 			}
 		}
 		g.WaitMs = rapid.SampledFrom([]int{0, 5, 50}).Draw(t, "closeAfterMs")
-		return hold[garbage]{g, fmt.Sprintf("%s %d bytes %x closeAfter=%d", g.Kind, len(g.Bytes), g.Bytes[:min(len(g.Bytes), 48)], g.WaitMs)}
+		return hold[garbage]{g, fmt.Sprintf("%s %d bytes %x closeAfter=%d", g.Kind, len(g.Bytes), g.Bytes[:e2eMin(len(g.Bytes), 48)], g.WaitMs)}
 	})
 }
 
@@ -453,7 +453,7 @@ func (p *prober) exchange(tag string) string {
 			return "no response: " + err.Error()
 		}
 		if r.Status != 200 || string(r.Body) != "hello "+token {
-			return fmt.Sprintf("status %d body %q, want 200 %q", r.Status, head(r.Body), "hello "+token)
+			return fmt.Sprintf("status %d body %q, want 200 %q", r.Status, e2eHead(r.Body), "hello "+token)
 		}
 		return ""
 	default:
@@ -466,13 +466,13 @@ func (p *prober) exchange(tag string) string {
 		b, _ := io.ReadAll(resp.Body)
 		_ = resp.Body.Close()
 		if resp.StatusCode != 200 || string(b) != "hello "+token {
-			return fmt.Sprintf("status %d body %q, want 200 %q", resp.StatusCode, head(b), "hello "+token)
+			return fmt.Sprintf("status %d body %q, want 200 %q", resp.StatusCode, e2eHead(b), "hello "+token)
 		}
 		return ""
 	}
 }
 
-func head(b []byte) string {
+func e2eHead(b []byte) string {
 	if len(b) > 80 {
 		return string(b[:80]) + "..."
 	}
@@ -601,13 +601,13 @@ func containmentCase(rt *rapid.T, sc *scenario) {
 				plaus++
 			}
 			classes = append(classes, "garbage:"+g.Kind)
-			h = append(h, g.Bytes[:min(len(g.Bytes), 64)]...)
+			h = append(h, g.Bytes[:e2eMin(len(g.Bytes), 64)]...)
 			h = append(h, byte(len(g.Bytes)), byte(len(g.Bytes)>>8))
 		}
 	}
 	for _, g := range sc.Upstream {
 		classes = append(classes, "upstream-garbage:"+g.Kind)
-		h = append(h, g.Bytes[:min(len(g.Bytes), 64)]...)
+		h = append(h, g.Bytes[:e2eMin(len(g.Bytes), 64)]...)
 	}
 	if len(sc.Upstream) > 0 {
 		classes = append(classes, "with-upstream-garbage")
@@ -906,7 +906,7 @@ func sendGarbage(addr string, g *garbage) string {
 	}
 }
 
-func min(a, b int) int {
+func e2eMin(a, b int) int {
 	if a < b {
 		return a
 	}
